@@ -404,3 +404,75 @@ Proof.
   intros h n l R E1 E2 m. apply hierarchy_spec in E1. apply closure_spec in E2.
   destruct E1 as [_ [_ [_ S1]]]. destruct E2 as [_ [_ [_ S2]]]. rewrite S1, S2. tauto.
 Qed.
+
+(* ------------------------------------------------------------------ a successful walk means: no cycle *)
+(* the visited list is in reverse finishing order: every node's parents finished before it *)
+Fixpoint topo (h : heap) (l : list ref) : Prop :=
+  match l with
+  | [] => True
+  | m :: t => incl (pars h m) t /\ topo h t
+  end.
+
+Lemma topo_closed : forall h l, topo h l -> forall x y, In x l -> reach h x y -> In y l.
+Proof.
+  induction l as [|m t IH]; simpl; intros T x y Hx R; [contradiction|]. destruct T as [A B].
+  unfold reach in R. induction R as [a|a p b Hp Hr IHr]; [exact Hx|].
+  apply IHr. destruct Hx as [<-|Hx].
+  - right. apply A. exact Hp.
+  - right. apply (IH B a p Hx). econstructor; [exact Hp|constructor].
+Qed.
+
+Lemma topo_acyclic : forall h l, NoDup l -> topo h l -> forall x, In x l -> ~ on_cycle h x.
+Proof.
+  induction l as [|m t IH]; simpl; intros ND T x Hx; [contradiction|]. destruct T as [A B].
+  inversion ND as [|? ? Hm NDt]; subst.
+  destruct Hx as [<-|Hx].
+  - intros [p [Hp Hr]]. apply Hm. apply (topo_closed h t B p m); [apply A; exact Hp|exact Hr].
+  - apply IH; assumption.
+Qed.
+
+Lemma subtree_impl_topo : forall k h n st vi ns st' vi',
+  subtree_impl k h n st vi = Ok (ns, (st', vi')) -> NoDup vi -> topo h vi -> NoDup vi' /\ topo h vi'.
+Proof.
+  induction k as [|k IH]; intros h n st vi ns st' vi' E; [discriminate|].
+  rewrite subtree_impl_S in E.
+  remember (pars h n) as ps eqn:Eps. clear Eps.
+  remember [n] as nodes eqn:En. clear En.
+  revert nodes st vi E. induction ps as [|p t IHt]; intros nodes st vi E ND T.
+  - simpl in E. inversion E; subst. auto.
+  - simpl in E. destruct (memb p vi) eqn:Mv; [eapply IHt; eauto|].
+    destruct (memb p st) eqn:Ms; [rewrite fold_hstep_raise in E; discriminate|].
+    destruct (subtree_impl k h p (p :: st) vi) as [[sub [st2 vi2]]|e] eqn:Ep;
+      [|rewrite fold_hstep_raise in E; discriminate].
+    destruct (IH _ _ _ _ _ _ _ Ep ND T) as [ND2 T2].
+    destruct (subtree_impl_spec _ _ _ _ _ _ _ _ Ep) as [rp [A1 [B1 [C1 [D1 [F1 [G1 J1]]]]]]].
+    eapply IHt; [exact E| |].
+    + constructor; [|exact ND2]. intros X. apply C1 in X. apply memb_false in Mv.
+      destruct X as [X|X]; [tauto|]. apply (F1 p X). left. reflexivity.
+    + simpl. split; [|exact T2]. apply G1. subst sub. left. reflexivity.
+Qed.
+
+Lemma hierarchy_acyclic : forall h n l, hierarchy h n = Ok l -> acyclic_from h n.
+Proof.
+  unfold hierarchy. intros h n l E.
+  destruct (subtree_impl (S (length h)) h n [n] []) as [[ns [st vi]]|e] eqn:Es; [|discriminate].
+  destruct (subtree_impl_topo _ _ _ _ _ _ _ _ Es (NoDup_nil _) I) as [ND T].
+  destruct (subtree_impl_spec _ _ _ _ _ _ _ _ Es) as [rest [A [B [C [D [F [G J]]]]]]].
+  assert (Hn : ~ In n vi).
+  { intros X. apply C in X. destruct X as [[]|X]. apply (F n X). left. reflexivity. }
+  assert (Hp : incl (pars h n) vi) by (apply G; subst ns; left; reflexivity).
+  intros x R. assert (R' : x = n \/ exists p, In p (pars h n) /\ reach h p x).
+  { unfold reach in *. inversion R; subst; [left; reflexivity|right; eauto]. }
+  destruct R' as [->|[p [Hpa Hr]]].
+  - intros [p [Hpp Hr]]. apply Hn. apply (topo_closed h vi T p n); [apply Hp; exact Hpp|exact Hr].
+  - apply (topo_acyclic h vi ND T). apply (topo_closed h vi T p x); [apply Hp; exact Hpa|exact Hr].
+Qed.
+
+(* the walk succeeds exactly on the nodes from which no cycle is reachable *)
+Theorem hierarchy_ok_iff : forall h n, heap_ok h -> n < length h ->
+  (is_ok (hierarchy h n) = true <-> acyclic_from h n).
+Proof.
+  intros h n H Hn. split.
+  - destruct (hierarchy h n) as [l|e] eqn:E; [intros _; eapply hierarchy_acyclic; eauto|discriminate].
+  - intros AC. destruct (hierarchy_ok h n H Hn AC) as [l E]. rewrite E. reflexivity.
+Qed.
